@@ -257,10 +257,17 @@ fn write_case(fat: [u16; 4], first: u32, size: u32, offset: u32, cursor: (u32, u
         c += 1;
     }
     // ---- contents: byte-array model ----
+    // the file's clusters after the call, fetched once per chain position
+    let pb: [Block; 4] = [
+        if n1 > 0 { dev.block(data_block(chain1[0])) } else { Block::new() },
+        if n1 > 1 { dev.block(data_block(chain1[1])) } else { Block::new() },
+        if n1 > 2 { dev.block(data_block(chain1[2])) } else { Block::new() },
+        if n1 > 3 { dev.block(data_block(chain1[3])) } else { Block::new() },
+    ];
     let mut pos = 0;
     while pos < 2048 {
         if pos < size1 as usize && pos / 512 < n1 {
-            let got = dev.byte(data_block(chain1[pos / 512]), pos % 512);
+            let got = pb[pos / 512].contents[pos % 512];
             if pos >= offset as usize && pos < new_end {
                 assert!(got == payload[pos - offset as usize], "file.write: bytes in the written range != payload");
             } else if pos < size as usize {
@@ -296,9 +303,7 @@ fn write_case(fat: [u16; 4], first: u32, size: u32, offset: u32, cursor: (u32, u
     if ((cc.0 / 512) as usize) < n1 {
         assert!(cc.1 .0 == chain1[(cc.0 / 512) as usize], "file.cursor: cached cluster is not the chain element at the cached offset");
     }
-    kani::cover!(fits && grow > 0);
-    kani::cover!(fits && grow == 0);
-    kani::cover!(!fits);
+    kani::cover!(r.is_ok() == fits, "instance reaches its expected outcome");
 }
 
 macro_rules! write_h {
@@ -333,3 +338,361 @@ write_h!(c05_write_disk_full_none, F35_FULL, 3, 1024, 1024, (512, 5), 4, Mode::R
 write_h!(c07_write_readonly_refused, F352, 3, 1300, 0, (0, 3), 4, Mode::ReadOnly);
 write_h!(c01_write_backward_chain, F53, 5, 900, 600, (512, 3), 8, Mode::ReadWriteAppend);
 write_h!(c01_write_empty_buffer, F352, 3, 1300, 77, (0, 3), 0, Mode::ReadWriteAppend);
+
+// ================================================================== C07 ===
+// Open modes.  Root directory (concrete layout, symbolic sizes/times):
+//   slot 0  A.TXT   file, archive, cluster 3 (chain 3 -> 5), size 600
+//   slot 1  R.TXT   file, read-only attribute, cluster 2, size 10
+//   slot 2  D       directory, cluster 4
+//   slot 3  O.TXT   file, cluster 0, size 0  -- already open (handle 11)
+//   slot 4..        end of directory
+fn put_slot(root: &mut [u8; 512], slot: usize, name: &[u8; 11], attr: u8, cluster: u16, size: u32) {
+    let o = 32 * slot;
+    let mut i = 0;
+    while i < 11 {
+        root[o + i] = name[i];
+        i += 1;
+    }
+    root[o + 11] = attr;
+    put16(root, o + 26, cluster);
+    put32(root, o + 28, size);
+    // timestamps: any valid-looking words
+    put16(root, o + 14, 0x6000);
+    put16(root, o + 16, 0x5821);
+    put16(root, o + 22, 0x6000);
+    put16(root, o + 24, 0x5821);
+}
+const N_A: [u8; 11] = *b"A       TXT";
+const N_R: [u8; 11] = *b"R       TXT";
+const N_D: [u8; 11] = *b"D          ";
+const N_O: [u8; 11] = *b"O       TXT";
+const N_M: [u8; 11] = *b"M       TXT";
+
+fn mode_of(i: u8) -> Mode {
+    match i {
+        0 => Mode::ReadOnly,
+        1 => Mode::ReadWriteAppend,
+        2 => Mode::ReadWriteTruncate,
+        3 => Mode::ReadWriteCreate,
+        4 => Mode::ReadWriteCreateOrTruncate,
+        _ => Mode::ReadWriteCreateOrAppend,
+    }
+}
+
+/// open_file_in_dir(root, name, mode) for one concrete (name, mode) pair.
+/// target: 0 = A (existing file), 1 = R (read-only file), 2 = D (directory),
+/// 3 = O (already open), 4 = M (missing).
+fn open_case(target: u8, m: u8) {
+    let mut blocks = image16([0xFFFF, 5, 0xFFFF, 0xFFFF]);
+    {
+        let r = &mut blocks[G16A_ROOT as usize].contents;
+        put_slot(r, 0, &N_A, 0x20, 3, 600);
+        put_slot(r, 1, &N_R, 0x21, 2, 10);
+        put_slot(r, 2, &N_D, 0x10, 4, 0);
+        put_slot(r, 3, &N_O, 0x20, 0, 0);
+    }
+    let root0 = blocks[G16A_ROOT as usize].clone();
+    let fat0 = blocks[G16A_FAT as usize].clone();
+    let open = file_info(11, 0, 0, 0, (0, 0), Mode::ReadWriteAppend, 3);
+    let vm = vm_with(blocks, &[open]);
+    let name = match target {
+        0 => N_A,
+        1 => N_R,
+        2 => N_D,
+        3 => N_O,
+        _ => N_M,
+    };
+    let mode = mode_of(m);
+    let r = vm.open_file_in_dir(RawDirectory(Handle(2)), ShortFileName { contents: name }, mode);
+    let data = vm.data.borrow();
+    let dev = vk_bd::dev(&data.block_cache);
+    let creating = m >= 3;
+    let refused_clean = |what: &'static str| {
+        assert!(dev.nwrites.get() == 0, "modes.refused: a refused open wrote to the medium");
+        assert!(data.open_files.len() == 1, "modes.refused: a refused open changed the open-file table");
+        let _ = what;
+    };
+    match target {
+        4 => {
+            if creating {
+                assert!(r.is_ok(), "modes.create: create mode on a missing name must create the file");
+                let fi = &data.open_files[1];
+                assert!(fi.entry.size == 0 && fi.current_offset == 0 && fi.entry.cluster.0 == 0, "modes.create: new file not empty");
+                assert!(fi.entry.entry_block.0 == G16A_ROOT && fi.entry.entry_offset == 32 * 4, "modes.create: entry not in the first free slot");
+                assert!(fi.mode != Mode::ReadOnly, "modes.create: created file handle is read-only");
+                let post = dev.block(G16A_ROOT);
+                let mut i = 0;
+                while i < 11 {
+                    assert!(post.contents[128 + i] == name[i], "modes.create: name not stored");
+                    i += 1;
+                }
+                let mut p = 0;
+                while p < 128 {
+                    assert!(post.contents[p] == root0.contents[p], "dir.frame: create changed other directory entries");
+                    p += 1;
+                }
+                assert!(fi.raw_file.0 .0 != 11, "handles.fresh: new file handle equals an open handle");
+            } else {
+                assert!(matches!(r, Err(Error::NotFound)), "modes.missing: non-create mode on a missing name must report NotFound");
+                refused_clean("missing");
+            }
+        }
+        3 => {
+            assert!(matches!(r, Err(Error::FileAlreadyOpen)), "modes.open_twice: an open file must not be opened again");
+            refused_clean("open twice");
+        }
+        2 => {
+            if m == 3 {
+                assert!(matches!(r, Err(Error::FileAlreadyExists)), "modes.create_existing: ReadWriteCreate on an existing name must fail");
+            } else {
+                assert!(matches!(r, Err(Error::OpenedDirAsFile)), "modes.dir_as_file: a directory must not open as a file");
+            }
+            refused_clean("dir");
+        }
+        1 => {
+            if m == 0 {
+                assert!(r.is_ok(), "modes.readonly_attr: read-only file must open ReadOnly");
+                assert!(data.open_files[1].mode == Mode::ReadOnly && data.open_files[1].current_offset == 0, "modes.readonly_attr: handle");
+                assert!(dev.nwrites.get() == 0, "modes.readonly: ReadOnly open wrote to the medium");
+            } else if m == 3 {
+                assert!(matches!(r, Err(Error::FileAlreadyExists)), "modes.create_existing: ReadWriteCreate on an existing name must fail");
+                refused_clean("create existing");
+            } else {
+                assert!(matches!(r, Err(Error::ReadOnly)), "modes.readonly_attr: a file with the read-only attribute must not open for writing");
+                refused_clean("read-only attr");
+            }
+        }
+        _ => {
+            let truncating = m == 2 || m == 4;
+            let appending = m == 1 || m == 5;
+            if m == 3 {
+                assert!(matches!(r, Err(Error::FileAlreadyExists)), "modes.create_existing: ReadWriteCreate on an existing name must fail");
+                refused_clean("create existing");
+            } else {
+                assert!(r.is_ok(), "modes.existing: opening an existing file failed");
+                let fi = &data.open_files[1];
+                assert!(fi.entry.entry_offset == 0 && fi.entry.cluster.0 == 3, "modes.existing: handle does not designate the entry");
+                if truncating {
+                    assert!(fi.entry.size == 0 && fi.current_offset == 0, "modes.truncate: file not emptied");
+                    let fatp = dev.block(G16A_FAT);
+                    assert!(le16(&fatp.contents, 6) >= 0xFFF8 && le16(&fatp.contents, 10) == 0, "modes.truncate: chain not cut after the first cluster / tail not freed");
+                    assert!(le16(&fatp.contents, 4) == le16(&fat0.contents, 4) && le16(&fatp.contents, 8) == le16(&fat0.contents, 8), "fat.frame: truncate changed another file's FAT entries");
+                    let post = dev.block(G16A_ROOT);
+                    assert!(le32(&post.contents, 28) == 0, "modes.truncate: directory entry size not zero on the medium");
+                    let mut p = 32;
+                    while p < 160 {
+                        assert!(post.contents[p] == root0.contents[p], "dir.frame: truncate changed other directory entries");
+                        p += 1;
+                    }
+                } else {
+                    assert!(fi.entry.size == 600, "modes.existing: size");
+                    assert!(fi.current_offset == if appending { 600 } else { 0 }, "modes.append: append must start at the end, read-only at the start");
+                    assert!((fi.mode == Mode::ReadOnly) == (m == 0), "modes.existing: handle mode");
+                    assert!(dev.nwrites.get() == 0, "modes.existing: open without truncation wrote to the medium");
+                }
+                assert!(fi.raw_file.0 .0 != 11, "handles.fresh: new file handle equals an open handle");
+            }
+        }
+    }
+    kani::cover!(r.is_ok() || r.is_err());
+}
+
+// one harness per (target, mode) pair
+#[kani::proof]
+#[kani::unwind(130)]
+fn c07_open_a_ro() {
+    open_case(0, 0);
+}
+#[kani::proof]
+#[kani::unwind(130)]
+fn c07_open_a_append() {
+    open_case(0, 1);
+}
+#[kani::proof]
+#[kani::unwind(130)]
+fn c07_open_a_trunc() {
+    open_case(0, 2);
+}
+#[kani::proof]
+#[kani::unwind(130)]
+fn c07_open_a_create() {
+    open_case(0, 3);
+}
+#[kani::proof]
+#[kani::unwind(130)]
+fn c07_open_a_create_or_trunc() {
+    open_case(0, 4);
+}
+#[kani::proof]
+#[kani::unwind(130)]
+fn c07_open_a_create_or_append() {
+    open_case(0, 5);
+}
+#[kani::proof]
+#[kani::unwind(130)]
+fn c07_open_r_ro() {
+    open_case(1, 0);
+}
+#[kani::proof]
+#[kani::unwind(130)]
+fn c07_open_r_append() {
+    open_case(1, 1);
+}
+#[kani::proof]
+#[kani::unwind(130)]
+fn c07_open_r_trunc() {
+    open_case(1, 2);
+}
+#[kani::proof]
+#[kani::unwind(130)]
+fn c07_open_r_create() {
+    open_case(1, 3);
+}
+#[kani::proof]
+#[kani::unwind(130)]
+fn c07_open_r_create_or_trunc() {
+    open_case(1, 4);
+}
+#[kani::proof]
+#[kani::unwind(130)]
+fn c07_open_r_create_or_append() {
+    open_case(1, 5);
+}
+#[kani::proof]
+#[kani::unwind(130)]
+fn c07_open_d_ro() {
+    open_case(2, 0);
+}
+#[kani::proof]
+#[kani::unwind(130)]
+fn c07_open_d_append() {
+    open_case(2, 1);
+}
+#[kani::proof]
+#[kani::unwind(130)]
+fn c07_open_d_trunc() {
+    open_case(2, 2);
+}
+#[kani::proof]
+#[kani::unwind(130)]
+fn c07_open_d_create() {
+    open_case(2, 3);
+}
+#[kani::proof]
+#[kani::unwind(130)]
+fn c07_open_d_create_or_trunc() {
+    open_case(2, 4);
+}
+#[kani::proof]
+#[kani::unwind(130)]
+fn c07_open_d_create_or_append() {
+    open_case(2, 5);
+}
+#[kani::proof]
+#[kani::unwind(130)]
+fn c07_open_o_ro() {
+    open_case(3, 0);
+}
+#[kani::proof]
+#[kani::unwind(130)]
+fn c07_open_o_append() {
+    open_case(3, 1);
+}
+#[kani::proof]
+#[kani::unwind(130)]
+fn c07_open_o_trunc() {
+    open_case(3, 2);
+}
+#[kani::proof]
+#[kani::unwind(130)]
+fn c07_open_o_create() {
+    open_case(3, 3);
+}
+#[kani::proof]
+#[kani::unwind(130)]
+fn c07_open_o_create_or_trunc() {
+    open_case(3, 4);
+}
+#[kani::proof]
+#[kani::unwind(130)]
+fn c07_open_o_create_or_append() {
+    open_case(3, 5);
+}
+#[kani::proof]
+#[kani::unwind(130)]
+fn c07_open_m_ro() {
+    open_case(4, 0);
+}
+#[kani::proof]
+#[kani::unwind(130)]
+fn c07_open_m_append() {
+    open_case(4, 1);
+}
+#[kani::proof]
+#[kani::unwind(130)]
+fn c07_open_m_trunc() {
+    open_case(4, 2);
+}
+#[kani::proof]
+#[kani::unwind(130)]
+fn c07_open_m_create() {
+    open_case(4, 3);
+}
+#[kani::proof]
+#[kani::unwind(130)]
+fn c07_open_m_create_or_trunc() {
+    open_case(4, 4);
+}
+#[kani::proof]
+#[kani::unwind(130)]
+fn c07_open_m_create_or_append() {
+    open_case(4, 5);
+}
+
+
+// ===================================================== find_data_on_disk ===
+/// Offset -> block translation with the cursor cache, on a concrete chain:
+/// success returns the block of the chain element offset/512 and the byte
+/// position in it; running off the end of the chain reports EndOfFile *and
+/// leaves the cursor at the chain's last cluster* - write() links the newly
+/// allocated cluster behind that cursor.
+fn find_data_case(fat: [u16; 4], first: u32, cursor: (u32, u32), desired: u32) {
+    let blocks = image16(fat);
+    let (chain, n) = chain_of(&fat, first);
+    let vm = vm_with(blocks, &[]);
+    let mut data = vm.data.borrow_mut();
+    let mut start = (cursor.0, ClusterId(cursor.1));
+    let r = data.find_data_on_disk(0, &mut start, ClusterId(first), desired);
+    let idx = (desired / 512) as usize;
+    if idx < n {
+        match r {
+            Ok((blk, off, avail)) => {
+                assert!(blk.0 == data_block(chain[idx]), "file.locate: block is not the chain element offset/cluster_size");
+                assert!(off == (desired % 512) as usize && avail == 512 - off, "file.locate: byte position / bytes available in the block");
+            }
+            Err(_) => assert!(false, "file.locate: failed inside the chain"),
+        }
+        assert!(start.0 == 512 * idx as u32 && start.1 .0 == chain[idx], "file.cursor: cursor not at the located cluster");
+    } else {
+        assert!(matches!(r, Err(Error::EndOfFile)), "file.locate: running off the chain must report EndOfFile");
+        assert!(start.1 .0 == chain[n - 1] && start.0 == 512 * (n as u32 - 1), "file.cursor: after EndOfFile the cursor must rest on the chain's last cluster (write links the new cluster there)");
+    }
+    assert!(vk_bd::dev(&data.block_cache).nwrites.get() == 0, "file.locate: wrote to the device");
+    kani::cover!(r.is_ok() || r.is_err());
+}
+macro_rules! find_data_h {
+    ($name:ident, $fat:expr, $first:expr, $cur:expr, $des:expr) => {
+        #[kani::proof]
+        #[kani::unwind(12)]
+        fn $name() {
+            find_data_case($fat, $first, $cur, $des);
+        }
+    };
+}
+find_data_h!(c01_locate_first, F352, 3, (0, 3), 17);
+find_data_h!(c01_locate_third_from_start, F352, 3, (0, 3), 1100);
+find_data_h!(c01_locate_backwards, F352, 3, (1024, 2), 600);
+find_data_h!(c01_locate_from_cache, F352, 3, (512, 5), 1500);
+find_data_h!(c01_locate_eof_from_start, F352, 3, (0, 3), 1536);
+find_data_h!(c01_locate_eof_from_cache, F352, 3, (512, 5), 1536);
+find_data_h!(c01_locate_eof_backward_chain, F53, 5, (0, 5), 1024);
